@@ -279,6 +279,22 @@ impl<'a> VisitMut for Rules<'a> {
         visit_mut::visit_impl_item_fn_mut(self, i);
         self.cur_fn = old;
     }
+    fn visit_signature_mut(&mut self, sig: &mut syn::Signature) {
+        // R13: an unnamed parameter `_: T` gets a name (Verus needs an identifier; the parameter is unused by definition)
+        let mut k = 0;
+        for a in sig.inputs.iter_mut() {
+            if let syn::FnArg::Typed(t) = a {
+                if let Pat::Wild(_) = &*t.pat {
+                    let id = syn::Ident::new(&format!("__vx_unused{}", k), Span::call_site());
+                    *t.pat = parse_quote!(#id);
+                    k += 1;
+                    self.log.push(json!({"rule":"R13","file":self.file,"line":0,
+                        "what":format!("in {}: unnamed parameter `_` named `{}`", sig.ident, id)}));
+                }
+            }
+        }
+        visit_mut::visit_signature_mut(self, sig);
+    }
     fn visit_block_mut(&mut self, b: &mut syn::Block) {
         if self.r1 {
             let mut kept = Vec::new();
@@ -366,7 +382,12 @@ impl<'a> VisitMut for Rules<'a> {
                 let line = match e { Expr::MethodCall(m) => Self::line(m.method.span()), Expr::Binary(b) => Self::line(syn::spanned::Spanned::span(&b.op)), _ => 0 };
                 self.log.push(json!({"rule":"R5","file":self.file,"line":line,
                     "what":format!("in {}: expression `{}` moved verbatim into trusted helper {}", self.cur_fn, pat, name)}));
-                *e = parse_quote!(#name(#(#args),*));
+                if h["try"].as_bool().unwrap_or(false) {
+                    // the hoisted expression contains `?`: the helper returns the Result and the `?` stays at the call site
+                    *e = parse_quote!(#name(#(#args),*)?);
+                } else {
+                    *e = parse_quote!(#name(#(#args),*));
+                }
                 self.hoist_hits[k] += 1;
                 return;
             }
